@@ -8,7 +8,7 @@ def _hook_commits():
     except Exception:
         return []
 
-CLAIMED_IDS = ['C01', 'C07', 'C08', 'C10']
+CLAIMED_IDS = ['C01', 'C02', 'C07', 'C08', 'C10', 'C12', 'C15', 'C16']
 
 HOOKS = {
     'guard': 'cargo feature `verif` (cfg(feature = "verif"))',
@@ -39,13 +39,25 @@ CLAIMED = {
     'C10': {'engine': 'engine-b-mirse', 'design_ref': 'DESIGN.md section 4 C10',
             'text': 'solver-decided obligations on file metadata: hull of several files (O7.1), binary search on well-formed levels (O1.3), file comparator is a total order (O10.3)',
             'note': B_NOTE, 'technique': TECH},
+    'C02': {'engine': 'engine-b-mirse', 'design_ref': 'DESIGN.md section 4 C02',
+            'text': 'log-level part of crash safety only: for every writer-producible log of <= 3 (thorough: 4) fragments with symbolic lengths, cut at ANY byte (symbolic), the reader returns exactly the complete records before the cut, in order, then end-of-file (O12.3 = O2.1)',
+            'note': B_NOTE + '; recovery orchestration (DB::recover*), manifest/CURRENT switching and flush ordering are not covered by this check', 'technique': TECH},
+    'C12': {'engine': 'engine-b-mirse', 'design_ref': 'DESIGN.md section 4 C12',
+            'text': 'writer fragmentation geometry for every start offset and record length <= 3 blocks (O12.1); reader reassembly over abstract block-accurate fragment streams: intact or cut at any byte (O12.3), abandoned record prefix + reopened writer (O12.4)',
+            'note': B_NOTE + '; byte contents (payload fidelity, CRC) are not represented in Engine B', 'technique': TECH},
+    'C15': {'engine': 'engine-b-mirse', 'design_ref': 'DESIGN.md section 4 C15',
+            'text': 'log reader under one fragment with a failing checksum (any position, symbolic lengths): exactly the damaged record is dropped, every other record is returned, alignment is kept (O15.5)',
+            'note': B_NOTE + '; corruption is modelled as "BlockRecord::try_from fails for that fragment" with an intact length field; table files and manifests are not covered', 'technique': TECH},
+    'C16': {'engine': 'engine-b-mirse', 'design_ref': 'DESIGN.md section 4 C16',
+            'text': 'log level: a torn tail is end-of-file and costs only the torn record (O12.3 with the cut inside the last fragment); records appended after a torn tail (O16.2) - known finding D1c',
+            'note': B_NOTE + '; DB::recover_wal_records and manifest reuse are not encoded', 'technique': TECH},
     'C07': {'engine': 'engine-b-mirse', 'design_ref': 'DESIGN.md section 4 C07',
-            'text': 'solver-decided obligations on the compaction input selection: key range of several files is their hull (O7.1) for every layout within the bound',
+            'text': 'solver-decided obligations on compaction input selection: hull of several files (O7.1, known finding D4), overlapping inputs incl. level-0 range expansion and its termination (O7.2), boundary files (O7.3), overlap test (O7.4a), base-level test for tombstones (O7.4b), memtable output level (O7.4c)',
             'note': B_NOTE, 'technique': 'symbolic execution of rustc MIR + z3 (SMT), cvc5 cross-check, native replay of counterexamples'},
 }
 
 _NOT_YET = 'obligations for this property are designed (DESIGN.md section 4) but not yet registered in this commit'
-NOT_APPLICABLE = {pid: _NOT_YET for pid in ['C02', 'C03', 'C04', 'C05', 'C06', 'C09', 'C11', 'C12', 'C13', 'C14', 'C15', 'C16']}
+NOT_APPLICABLE = {pid: _NOT_YET for pid in ['C03', 'C04', 'C05', 'C06', 'C09', 'C11', 'C13', 'C14']}
 NOT_APPLICABLE['C17'] = 'the mechanism is flock(2) through the fs2 FFI on a real file descriptor plus racing threads; neither engine has a model of flock or of threads, and a contract "lock_file returns anything" decides nothing'
 
 NOTES = 'See DESIGN.md. Exit codes of ./check: 0 held (KNOWN-FINDING lines for recorded defects), 1 VIOLATION, 2 inconclusive (tool limit or non-reproducing counterexample; never reported as held).'
